@@ -3,7 +3,8 @@
 From Coq Require Import ZArith List Bool.
 From Model Require Import Base Arith.
 From Model Require Import Block Examples.
-From Lemmas Require Import ArithLemmas HoldingLemmas NoWinners NoWinnersStatus.
+From Model Require Import Ledger.
+From Lemmas Require Import ArithLemmas HoldingLemmas NoWinners NoWinnersStatus HistoryLemmas StatusLemmas ExecExact.
 Open Scope Z_scope.
 
 (* The amount credited is floor(input x source rate / destination rate); once averaging is
@@ -58,6 +59,53 @@ Theorem C07_pending_conversion_waits_through_unrated_blocks : forall c cm mem b 
   In r (hist cm) -> In r (hist s').
 Proof. exact no_winners_pending_stays_pending. Qed.
 Print Assumptions C07_pending_conversion_waits_through_unrated_blocks.
+
+(* The positive half.  A block that has graded rates (it records a rate map m for its own height, which was unrated
+   before) runs the holding pass with exactly that map m — the block's OWN rates — and with the averages taken at the
+   last rated height before it; the recorded rates survive to the end of the block. *)
+Theorem C07_rated_block_executes_holding_at_its_own_rates : forall c cm mem b s s' mem' m,
+  sync_block c cm mem b s = Done (s', mem') ->
+  c_TransactionConversionActivation c <= b_height b ->
+  rates s !! b_height b = None -> rates s' !! b_height b = Some m ->
+  block_rated c cm b /\ is_empty_map m = false /\
+  exists s1 s2,
+    let h := b_height b in
+    let avgs := fst (get_averages cm (c_AveragePeriod c) mem (last_rated_below s1 h)) in
+    rates s1 !! h = Some m /\ rates s1 = <[h := m]> (rates s) /\
+    apply_holding c cm h s1 m avgs = Ok s2 /\
+    last_rated_below s1 h = last_rated_below s h /\
+    mem' = snd (get_averages cm (c_AveragePeriod c) mem (last_rated_below s1 h)) /\
+    rates s2 = rates s1 /\ rates s' = rates s1.
+Proof. exact sync_block_holding_uses_own_rates. Qed.
+Print Assumptions C07_rated_block_executes_holding_at_its_own_rates.
+(* ... and in that pass a held conversion that the admission rule lets through is executed exactly: one debit of the
+   input, one credit of out = floor(input x source rate / destination rate) computed from the rates and averages the pass
+   was given, no other cell of anybody changes, the batch status becomes the executing height and the recorded
+   to_amount is out.  (Room: the credited cell stays within int64.) *)
+Theorem C07_held_conversion_executes_exactly : forall c cur rates avgs s e hh t out,
+  entry_valid_at c e hh = Some [t] -> (exists txs, entry_valid_at c e cur = Some txs) ->
+  is_replay s (e_hash e) = false ->
+  (c_V20HeightActivation c <=? cur) && has_peg_conversion [t] = false ->
+  is_conversion t = true ->
+  (c_PegnetConversionLimitActivation c <=? cur) && is_peg_request t = false ->
+  check_txs c cur s rates avgs [t] = None -> conv_of c cur rates avgs t = Some out ->
+  0 <= rate_of rates (tx_type t) -> 0 <= rate_of avgs (tx_type t) ->
+  0 <= rate_of rates (tx_conv t) -> 0 <= rate_of avgs (tx_conv t) ->
+  valid_ticker (tx_type t) = true ->
+  (tx_amt t = 0 -> get_bal (bal s) (tx_addr t) (tx_type t) <= max_int64) ->
+  get_bal (bal s) (tx_addr t) (tx_conv t) - (if tx_conv t =? tx_type t then tx_amt t else 0) + out <= max_int64 ->
+  exists s', apply_held c cur rates avgs s e hh = Ok (s', false) /\
+    (forall a ty, get_bal (bal s') a ty = get_bal (bal s) a ty
+        - (if (a =? tx_addr t) && (ty =? tx_type t) then tx_amt t else 0)
+        + (if (a =? tx_addr t) && (ty =? tx_conv t) then out else 0)) /\
+    conv_floor_spec c cur rates avgs t out /\
+    hist s' = mark_exec (e_hash e) cur (hist s) /\
+    Forall (fun x => x = cur) (status_of s' (e_hash e)) /\
+    htxs s' = htxs (set_to_amount s (e_hash e) 0 out) /\
+    (forall r, In r (htxs s') -> ht_hash r = e_hash e -> ht_index r = 0 -> ht_to_amount r = out) /\
+    Db.rates s' = Db.rates s /\ holding s' = holding s /\ is_replay s' (e_hash e) = true /\ bank s' = bank s.
+Proof. exact held_conversion_executes_exactly. Qed.
+Print Assumptions C07_held_conversion_executes_exactly.
 
 (* in the example chain the conversion entered at 102 is pending through the unrated block 103 and
    executes at 104 with 104's rates: 20 pFCT at 4 USD -> 80 pUSD *)
